@@ -270,7 +270,8 @@ pub fn handmade_text_message(r: &mut Rng, n: usize, sh: bool) -> Vec<u8> {
     p.extend(w32(0x0000_0042));                           // UINT 16 bit
     p.extend(w16(0xBEEF));
     let mut b: Vec<u8> = vec![];
-    if sh { b.extend(b"DLT\x01"); b.extend((r.next() as u32).to_le_bytes()); b.extend((r.next() as u32).to_le_bytes()); b.extend(b"ECU9"); }
+    // storage time: random, or 0 s 0 us (no reception clock), or 0 s with microseconds
+    if sh { b.extend(b"DLT\x01"); let (a, c) = match r.below(4) { 0 => (0u32, 0u32), 1 => (0, r.next() as u32), _ => (r.next() as u32, r.next() as u32) }; b.extend(a.to_le_bytes()); b.extend(c.to_le_bytes()); b.extend(b"ECU9"); }
     let total = 4 + 10 + p.len();
     b.extend([0x21 | if be { 2 } else { 0 }, r.next() as u8, (total >> 8) as u8, total as u8]);
     b.extend([0x41, 2]);                                  // verbose log info, two arguments
